@@ -1,8 +1,10 @@
 SPECIFICATION DevSpec
 CONSTANTS
  DevChoices <- NoDev
+INVARIANT ErrOK
 INVARIANT MolListUnchanged
 INVARIANT Correct
+PROPERTY NodesStable
 PROPERTY HandBack
 PROPERTY AnnotateOnlyAdds
 CHECK_DEADLOCK FALSE
